@@ -62,6 +62,16 @@ LettersHollowFlush == {El("P", 2, 0), El("H", 1, 0), El("L", 3, 3), El("P", 7, 1
 LettersHollowMC == {El("H", 1, 1), El("H", 2, 0), El("P", 2, 1), El("L", 0, 0), El("T", 0, 0), El("L", 2, 2), NP}
 HollowDropOn == TRUE
 
+\* REPEATED TEXTS across pages (element path): G = a heading given as a Paragraph
+\* element that Layout.Headings of its page lists (level a), R = a plain paragraph;
+\* elements of text class t = 1 show the SAME text, t = 0 a text of their own: a
+\* contents page listing a section title as a plain paragraph before or after the
+\* page with the real heading, a running title, the same title at two levels.
+\* (Two elements of one class on the same page are left out by the harness: there
+\* the layout's heading list cannot tell them apart.)
+Rp(k, a, t) == [k |-> k, a |-> a, n |-> 1, t |-> t]
+LettersRepeat == {Rp("G", 1, 1), Rp("G", 2, 1), Rp("R", 0, 1), Rp("G", 1, 0), Rp("G", 2, 0), El("P", 2, 1), NP}
+
 \* a document the layout-based rag.Chunker can be given without loss: only
 \* headings, paragraphs and lists, and on every page headings first, then
 \* paragraphs, then lists (model.PageLayout keeps one list per kind)
